@@ -38,6 +38,8 @@ type functionOperator struct {
 	step        int64
 	currentStep int64
 	stepsBatch  int
+
+	duplicates *model.DuplicateLabelCheck
 }
 
 type noArgFunctionOperator struct {
@@ -272,6 +274,10 @@ func (o *functionOperator) Next(ctx context.Context) ([]model.StepVector, error)
 		}
 		vectors[batchIndex].Samples = vector.Samples[:j]
 		vectors[batchIndex].SampleIDs = vector.SampleIDs[:j]
+		// Dropping the metric name can make two series indistinguishable.
+		if err := o.duplicates.Check(vectors[batchIndex]); err != nil {
+			return nil, err
+		}
 	}
 
 	return vectors, nil
@@ -323,6 +329,7 @@ func (o *functionOperator) loadSeries(ctx context.Context) error {
 
 			o.series[i] = lbls
 		}
+		o.duplicates = model.NewDuplicateLabelCheck(o.series)
 	})
 
 	return err
